@@ -6,7 +6,7 @@
 
    Property-level layer: GenCode (NCBI translation table 1, the 64 amino acids of the codons in TCAG
    order, first base most significant), Translate, PTranslate (append; panic on a length not
-   divisible by 3 or a non-ACGT base), Frames, NameDomain (the letters of AminoAcids, either case).
+   divisible by 3 or a non-ACGT base), Frames, AminoNameBytes (the letters of AminoAcids, either case).
    Implementation-shaped layer: GoTable (the codonToAmino literal: keys in ACGT order as written in
    amino.go), the `>= 'a'` case folding, the map miss = panic, the frame slicing seq[min(i,len):]
    of the repaired TranslateReadingFrames, the aminoToName key list. *)
@@ -50,7 +50,7 @@ Frames(seq) == [f \in 1..3 |-> Translate(Trunc3(Drop(seq, Least(f - 1, Len(seq))
 
 \* const AminoAcids = "ABCDEFGHIKLMNPQRSTVWXYZ*"
 AminoAcids == <<"A", "B", "C", "D", "E", "F", "G", "H", "I", "K", "L", "M", "N", "P", "Q", "R", "S", "T", "V", "W", "X", "Y", "Z", "*">>
-NameDomain == { Asc(AminoAcids[i]) : i \in 1..Len(AminoAcids) }
+AminoNameBytes == { Asc(AminoAcids[i]) : i \in 1..Len(AminoAcids) }
                 \cup { Asc(AminoAcids[i]) + 32 : i \in { j \in 1..Len(AminoAcids) : AminoAcids[j] # "*" } }
 
 ---------------------------------------------------------------------------
